@@ -983,6 +983,56 @@ func c10RSAExponents(w *core.W, j int) {
 	}
 }
 
+// c10Inhomogeneous: Sign does not look at what it is given; Verify does - "the RRset matches the RRSIG's
+// owner". Two records whose owners are different names (as octet strings, ASCII case aside) are not an
+// RRset, however alike the names look to a comparison made for text: Unicode case pairs (KELVIN SIGN / k,
+// LONG S / s, e-acute / E-acute) and octets that are no UTF-8 at all.
+func c10Inhomogeneous(w *core.W, j int) {
+	alg := []uint8{dns.ED25519, dns.ECDSAP256SHA256, dns.RSASHA256}[j%3]
+	zone := "inhomog.example."
+	k, err := getKey(alg, algBits[alg][0], zone, 257, 3)
+	if err != nil {
+		w.Inconclusive("keygen:" + err.Error())
+		return
+	}
+	pairs := [][2]string{{"host", "other"}, {"\xe2\x84\xaa", "k"}, {"\xe2\x84\xaa", "K"}, {"\xc5\xbf", "s"}, {"\xff", "\xfe"}, {"\xe9", "\xc9"}, {"caf\xc3\xa9", "caf\xc3\x89"},
+		{"x\xff\xffy", "x\xfe\xfdy"}, {"stra\xc3\x9fe", "strasse"}, {"a", "a.b"}}
+	for pi, p := range pairs {
+		for order := 0; order < 2; order++ {
+			o1, o2 := p[0]+"."+zone, p[1]+"."+zone
+			if order == 1 {
+				o1, o2 = o2, o1
+			}
+			mk := func(owner string, last byte) dns.RR {
+				return &dns.A{Hdr: dns.RR_Header{Name: owner, Rrtype: dns.TypeA, Class: dns.ClassINET, Ttl: 300}, A: []byte{192, 0, 2, last}}
+			}
+			set := []dns.RR{mk(o1, 1), mk(o2, 2)}
+			if j%2 == 1 {
+				set = append(set, mk(o1, 3))
+			}
+			sig := &dns.RRSIG{Algorithm: alg, KeyTag: k.Key.KeyTag(), SignerName: zone, Inception: 1_700_000_000, Expiration: 1_800_000_000}
+			wit := map[string]any{"alg": algName(alg), "owner_first": fmt.Sprintf("%q", o1), "owner_second": fmt.Sprintf("%q", o2)}
+			w.Eval(1)
+			var serr, verr error
+			if w.Guard("RRSIG.Sign", wit, func() { serr = sig.Sign(k.Priv, set) }) {
+				return
+			}
+			if serr != nil {
+				w.Count("inhomogeneous_sets_not_signed", 1)
+				continue
+			}
+			if w.Guard("RRSIG.Verify", wit, func() { verr = sig.Verify(k.Key, set) }) {
+				return
+			}
+			w.Count("inhomogeneous_sets", 1)
+			if verr == nil {
+				w.Violation("C10/accepts-invalid/rrset.owners-differ/"+algName(alg), fmt.Sprintf("Verify succeeds for a set whose records are owned by %q and %q (pair %d): not an RRset, and not the RRSIG's owner throughout", o1, o2, pi), wit)
+			}
+		}
+	}
+	w.NontrivialStr("inhomogeneous", fmt.Sprint(j))
+}
+
 func init() {
 	plan, run := sections(section{"rrsets", tiered(360, 12000), c10Case},
 		section{"same-tag-keys", tiered(10, 200), c10SameTagKeys},
@@ -991,7 +1041,8 @@ func init() {
 			concurrentRRSIGVerify(w, j, "C10/concurrent-verify-fails")
 		}},
 		section{"many-signatures", tiered(15, 300), c10ManySignatures},
-		section{"rsa-exponents", tiered(24, 96), c10RSAExponents})
+		section{"rsa-exponents", tiered(24, 96), c10RSAExponents},
+		section{"inhomogeneous-sets", tiered(6, 30), c10Inhomogeneous})
 	core.Register(&core.Monitor{
 		ID: "C10", Level: "exploration", Plan: plan, Run: run, MaxParallel: 16, CaseTimeout: 300e9,
 		Rule: "RRsets of every signable registry type (1..6 records, repeated records, mixed case, escaped names, wildcard and multi-label owners) x RSASHA1/256(1024,2048)/512, ECDSA P-256/P-384, Ed25519 with keys generated per run; " +
